@@ -37,6 +37,7 @@ type respOp struct {
 	Method, Path string
 	Responses    []respDef
 	HasParams    bool
+	Body         string // "" | json | raw
 }
 
 type respSpec struct {
@@ -46,6 +47,7 @@ type respSpec struct {
 	Comps map[string]respDef
 	// the spec uses one shared response as default and numbered: the generator must report an error
 	MustReject bool
+	Base       string
 }
 
 func genRespSpec(rng *PRNG, name string) respSpec {
@@ -142,7 +144,7 @@ func genRespSpec(rng *PRNG, name string) respSpec {
 	}
 	paths := map[string]any{}
 	nops := 3 + rng.Intn(3)
-	tplPool := []string{"/pets", "/pets/{id}", "/shops/{shop}/pets/{id}", "/status", "/shops/{shop}", "/", "/files/{name}/raw", "/shops/mine/summary", "/shops/{shop}/pets"}
+	tplPool := []string{"/pets", "/pets/{id}", "/shops/{shop}/pets/{id}", "/status", "/shops/{shop}", "/", "/files/{name}/raw", "/shops/mine/summary", "/shops/{shop}/pets", "/pets/", "/shops/{shop}/"}
 	usedT := map[string]bool{}
 	for i := 0; i < nops; i++ {
 		tpl := Pick(rng, tplPool)
@@ -195,6 +197,12 @@ func genRespSpec(rng *PRNG, name string) respSpec {
 		}
 		responses := map[string]any{}
 		ro := respOp{Method: strings.ToUpper(method), Path: tpl, HasParams: len(params) > 0}
+		if rb, ok := op["requestBody"].(map[string]any); ok {
+			ro.Body = "raw"
+			if _, isJSON := rb["content"].(map[string]any)["application/json"]; isJSON {
+				ro.Body = "json"
+			}
+		}
 		statuses := []string{"200", "201", "204", "400", "404", "default"}
 		usedInOp := map[string]bool{}
 		for _, st := range statuses {
@@ -239,7 +247,7 @@ func genRespSpec(rng *PRNG, name string) respSpec {
 		pi[method] = op
 		rs.Ops = append(rs.Ops, ro)
 	}
-	if rng.Chance(1, 8) {
+	if rng.Chance(1, 16) {
 		// goag must refuse this too: ONE operation uses one shared response twice, once by its own
 		// name and once through an alias (two numbered statuses)
 		var alias string
@@ -266,7 +274,7 @@ func genRespSpec(rng *PRNG, name string) respSpec {
 			}
 		}
 	}
-	if !rs.MustReject && rng.Chance(1, 6) && len(rs.Ops) >= 2 {
+	if !rs.MustReject && rng.Chance(1, 12) && len(rs.Ops) >= 2 {
 		// goag must refuse this: one shared response as 'default' in one operation and under a
 		// numbered status in another (either visiting order)
 		cn := compNames[0]
@@ -296,6 +304,7 @@ func genRespSpec(rng *PRNG, name string) respSpec {
 		"components": map[string]any{"schemas": schemas, "responses": compResponses}}
 	if rng.Chance(1, 3) {
 		doc["servers"] = []any{map[string]any{"url": "/api/v1"}}
+		rs.Base = "/api/v1"
 	}
 	bs, _ := json.Marshal(doc)
 	rs.Gen = GenSpec{Name: name, Spec: bs, Ext: "json", Client: true, DoNotEdit: true}
@@ -310,7 +319,7 @@ func implementersOf(work string, names []string) (map[string]map[string][]string
 		patterns = append(patterns, "verifscratch/mod/"+n)
 	}
 	cfg := &packages.Config{Mode: packages.NeedName | packages.NeedTypes | packages.NeedTypesInfo | packages.NeedSyntax | packages.NeedImports, Dir: work,
-		Env: append(os.Environ(), "GOFLAGS=-mod=mod", "GOPROXY=off", "GOSUMDB=off", "GOTOOLCHAIN=local")}
+		Env: goEnv()}
 	pkgs, err := packages.Load(cfg, patterns...)
 	if err != nil {
 		return nil, err
@@ -418,8 +427,26 @@ func facetResp(args []string) error {
 			a, _ := json.Marshal(map[string]any{"method": op.Method, "path": op.Path, "seed": crng.Next() % 1000000})
 			cases = append(cases, rt.Case{Op: "respinfo", Pkg: r.Name, ID: fmt.Sprintf("%s#i%d", r.Name, k), Args: a})
 			for j := 0; j < ncalls; j++ {
-				a, _ := json.Marshal(map[string]any{"method": op.Method, "path": op.Path, "seed": crng.Next() % 100000000, "resp": j, "status": []int{299, 418, 500, 302, 202}[j%5]})
+				a, _ := json.Marshal(map[string]any{"method": op.Method, "path": op.Path, "seed": crng.Next() % 100000000, "resp": j, "status": []int{299, 418, 500, 302, 202}[j%5], "net": j%6 == 5})
 				cases = append(cases, rt.Case{Op: "clientcall", Pkg: r.Name, ID: fmt.Sprintf("%s#c%d.%d", r.Name, k, j), Args: a})
+			}
+			if op.Body != "" {
+				// raw requests with a body straight into ServeHTTP (C14): valid / invalid / empty / huge
+				// documents, with a declared and with an unknown (-1, chunked) content length
+				segs := strings.Split(op.Path, "/")
+				for x, sg := range segs {
+					if strings.HasPrefix(sg, "{") {
+						segs[x] = "1"
+					}
+				}
+				bodies := []string{`{"id":1,"name":"rex"}`, `{"message":"m"}`, `[{"id":1,"name":"a"}]`, `{"id":`, ``, `null`, `[]`, `"s"`, `{"id":"x","name":7}`, strings.Repeat("[", 2000)}
+				for bi, b := range bodies {
+					for ci, cl := range []int64{int64(len(b)), -1} {
+						b, cl := b, cl
+						cases = append(cases, rt.Case{Op: "serve", Pkg: r.Name, ID: fmt.Sprintf("%s#b%d.%d.%d", r.Name, k, bi, ci), Method: op.Method,
+							Path: rs.Base + strings.Join(segs, "/"), Body: &b, CL: &cl, Mws: 1, Headers: [][2]string{{"Content-Type", "application/json"}}})
+					}
+				}
 			}
 			for _, st := range []int{200, 201, 202, 204, 299, 301, 400, 404, 418, 500, 503} {
 				a, _ := json.Marshal(map[string]any{"method": op.Method, "path": op.Path, "seed": 5, "status": st})
